@@ -495,8 +495,11 @@ TraceQuery ==
          checks == CASE R.ep = "utxos"   -> Gated(m, "get_utxos", UtxosChecks(m))
                      [] R.ep = "balance" -> Gated(m, "get_balance", BalanceChecks(m)) \o RelationChecks
                      [] R.ep = "headers" -> Gated(m, "get_block_headers", HeadersChecks(m))
-                     [] R.ep = "info"    -> InfoChecks(m)
-                     [] R.ep = "config"  -> << <<"config.value", m.cfg, R.ans.cfg>> >>
+                     \* get_blockchain_info and get_config answer regardless of the gate (C14): a trap is a mismatch
+                     [] R.ep = "info"    -> IF R.ans.k # "ok" THEN << <<"gate.answer.get_blockchain_info", "ok", R.ans.k>> >>
+                                            ELSE InfoChecks(m)
+                     [] R.ep = "config"  -> IF R.ans.k # "ok" THEN << <<"gate.answer.get_config", "ok", R.ans.k>> >>
+                                            ELSE << <<"config.value", m.cfg, R.ans.cfg>> >>
                      [] R.ep = "metrics" -> MetricsChecks(m)
      IN AllAgree(checks) \in BOOLEAN
 
